@@ -136,13 +136,16 @@ Definition seek (t : tree) (size : Z) (r : rd) (off wh : Z) : rd * Z * bool :=
 
 (** ---------- operations ---------- *)
 Inductive op := ORead (n : Z) | OSeek (off wh : Z) | OWriteTo.
-Inductive ob := BRead (d : list Z) (e : err) | BSeek (pos : Z) (ok : bool) | BWrite (d : list Z) (e : err).
+Inductive ob := BRead (d : list Z) (e : err) | BSeek (pos : Z) (ok : bool) | BWrite (d : list Z) (n : Z) (e : err).   (* WriteTo: bytes written to w, returned count *)
 
 Definition step (t : tree) (size : Z) (r : rd) (o : op) : rd * ob :=
   match o with
   | ORead n => let '(r', d, e) := read r n in (r', BRead d e)
   | OSeek off wh => let '(r', p, ok) := seek t size r off wh in (r', BSeek p ok)
-  | OWriteTo => let (r', d) := write_to r in (r', BWrite d ENone)
+  | OWriteTo =>
+      (* the returned count: what the drained leaf buffer held plus what the iteration wrote *)
+      let n := len (flat (r_cur r)) + len (concat (r_rest r)) in
+      let (r', d) := write_to r in (r', BWrite d n ENone)
   end.
 
 Fixpoint run (t : tree) (size : Z) (r : rd) (ops : list op) : rd * list ob :=
@@ -156,7 +159,8 @@ Fixpoint run (t : tree) (size : Z) (r : rd) (ops : list op) : rd * list ob :=
     and reports EOF exactly when it delivers fewer than n; a Seek to a negative target or
     with an unknown whence fails and leaves the position alone (the number returned with
     the error is not specified); seeking past the end is allowed and then reads deliver
-    nothing; WriteTo delivers everything from the position to the end. *)
+    nothing; WriteTo delivers everything from the position to the end and returns
+    the number of bytes it delivered. *)
 Record br := { b_pos : Z }.
 
 Definition spec_step (c : list Z) (s : br) (o : op) : br * ob :=
@@ -172,7 +176,7 @@ Definition spec_step (c : list Z) (s : br) (o : op) : br * ob :=
       | None => (s, BSeek 0 false)
       | Some t => if t <? 0 then (s, BSeek 0 false) else ({| b_pos := t |}, BSeek t true)
       end
-  | OWriteTo => let d := dropZ p c in ({| b_pos := p + len d |}, BWrite d ENone)
+  | OWriteTo => let d := dropZ p c in ({| b_pos := p + len d |}, BWrite d (len d) ENone)
   end.
 
 Fixpoint spec_run (c : list Z) (s : br) (ops : list op) : br * list ob :=
@@ -197,7 +201,7 @@ Definition ob_match (o : op) (a b : ob) : bool :=
        | _ => false
        end)
   | BSeek p ok, BSeek p' ok' => Bool.eqb ok ok' && (negb ok || (p =? p'))
-  | BWrite d e, BWrite d' f => zlist_eqb d d' && err_eqb e f
+  | BWrite d n e, BWrite d' n' f => zlist_eqb d d' && (n =? n') && err_eqb e f
   | _, _ => false
   end.
 
